@@ -825,7 +825,9 @@ def parse_tree_to_objgraph(
         # Collect rules for textx-tools
         if inst is not None and metamodel.textx_tools_support:
             pos = (inst._tx_position, inst._tx_position_end)
-            pos_rule_dict[pos] = inst
+            # Children are processed before their containers: keep the
+            # innermost object if nested objects share the same span.
+            pos_rule_dict.setdefault(pos, inst)
 
         return inst
 
